@@ -146,8 +146,9 @@ pub fn bfs(sc: &dyn Scenario, lim: &BfsLimits, violations: &mut Vec<Violation>) 
     for (h, d, o) in first.iter() {
         let r = sc.eval(h);
         stats.replayed += 1;
-        if r.digest != *d || r.outcome != *o {
-            stats.nondeterministic.push(crate::world::hist_str(h));
+        // the digest of a state that is not expanded (an operation panicked or deadlocked half-way) is irrelevant
+        if (!r.prune && r.digest != *d) || r.outcome != *o {
+            stats.nondeterministic.push(format!("{} [digest {:x} vs {:x}, outcome {:x} vs {:x}]", crate::world::hist_str(h), d, r.digest, o, r.outcome));
         }
     }
     if !stats.nondeterministic.is_empty() {
